@@ -20,6 +20,12 @@
 //!        race     - | R<hex>: on receiving the request the server writes this file at the cache path
 //!                 (another process finishing first)
 //!        body     hex | -
+//!        optional 6th field: J<hex location> (code-info lookup, see above) or
+//!                 V<code>:<hex loc1>[:<hex loc2>..]  download redirect chain: the .sym request is answered
+//!                 `<code>` (301/302/303/307/308) + `Location: loc1`, the request for loc1 with a redirect to loc2 ...,
+//!                 the request for the last location gets the scripted response.  `PORTSELF` in a location is
+//!                 replaced by this server's port (absolute URLs).  Follow-up requests are logged with a '>' in
+//!                 front of their target.
 //! Shared-cache histories (round 4): first token kM:
 //!   kM <df> <id> <cf> <ci> <pre> <tmo> <nc> <server script>*nc <schedule>
 //!   nc clients (one HttpSymbolSupplier each, client i talks to server i only) share ONE cache directory and ONE
@@ -87,6 +93,7 @@ struct Script {
     race: Option<Vec<u8>>,
     body: Vec<u8>,
     redirect: Option<String>,
+    dl_redirect: Option<(u32, Vec<String>)>,
 }
 
 fn offs(s: &str) -> Vec<usize> {
@@ -120,8 +127,18 @@ fn parse_script(s: &str) -> Script {
         }
     };
     let race = if p[3] == "-" { None } else { Some(unhex(&p[3][1..])) };
-    let redirect = if p.len() == 6 { Some(String::from_utf8(unhex(&p[5][1..])).expect("utf8")) } else { None };
-    Script { status: p[0].parse().expect("status"), framing, cut, race, body: unhex(p[4]), redirect }
+    let redirect = if p.len() == 6 && p[5].starts_with('J') { Some(String::from_utf8(unhex(&p[5][1..])).expect("utf8")) } else { None };
+    let dl_redirect = if p.len() == 6 && p[5].starts_with('V') {
+        let mut it = p[5][1..].split(':');
+        let code: u32 = it.next().expect("redirect code").parse().expect("redirect code");
+        let locs: Vec<String> = it.map(|h| String::from_utf8(unhex(h)).expect("utf8")).collect();
+        assert!(!locs.is_empty(), "redirect chain");
+        Some((code, locs))
+    } else {
+        None
+    };
+    assert!(p.len() == 5 || redirect.is_some() || dl_redirect.is_some(), "6th field");
+    Script { status: p[0].parse().expect("status"), framing, cut, race, body: unhex(p[4]), redirect, dl_redirect }
 }
 
 struct Shared {
@@ -191,7 +208,24 @@ async fn serve_conn(mut sock: TcpStream, idx: usize, script: Script, sh: Arc<Sha
     let first = head.split(|&b| b == b'\r').next().unwrap_or(&[]);
     let first = String::from_utf8_lossy(first).to_string();
     let target = first.split(' ').nth(1).unwrap_or("").to_string();
-    sh.log.lock().unwrap().push((idx, target.clone()));
+    // download redirect chain: which hop is this request?
+    let self_port = sock.local_addr().map(|a| a.port()).unwrap_or(0);
+    let locs: Vec<String> = match &script.dl_redirect {
+        Some((_, l)) => l.iter().map(|x| x.replace("PORTSELF", &self_port.to_string())).collect(),
+        None => vec![],
+    };
+    let path_of = |l: &str| -> String {
+        // request target of a location: absolute URLs lose scheme and authority
+        match l.find("://") {
+            Some(k) => match l[k + 3..].find('/') {
+                Some(j) => l[k + 3 + j..].to_string(),
+                None => "/".to_string(),
+            },
+            None => l.to_string(),
+        }
+    };
+    let hop = locs.iter().rposition(|l| path_of(l) == target).map(|k| k + 1).unwrap_or(0);
+    sh.log.lock().unwrap().push((idx, if hop > 0 { format!(">{}", target) } else { target.clone() }));
     if sh.code_info && !target.contains('?') {
         // code-info lookup (<code_file>/<code_id>/<code_file>.sym, no query): redirect or 404
         let resp = match &script.redirect {
@@ -206,6 +240,14 @@ async fn serve_conn(mut sock: TcpStream, idx: usize, script: Script, sh: Arc<Sha
         sock.write_all(b"HTTP/1.1 404 Not Found\r\nContent-Length: 0\r\nConnection: close\r\n\r\n").await?;
         sock.shutdown().await?;
         return Ok(());
+    }
+    if let Some((code, _)) = &script.dl_redirect {
+        if hop < locs.len() {
+            let resp = format!("HTTP/1.1 {} Redirect\r\nLocation: {}\r\nContent-Length: 0\r\nConnection: close\r\n\r\n", code, locs[hop]);
+            sock.write_all(resp.as_bytes()).await?;
+            sock.shutdown().await?;
+            return Ok(());
+        }
     }
     if let Some(content) = &script.race {
         if let Some(parent) = sh.race_path.parent() {
